@@ -167,14 +167,14 @@ where
     let expect: Vec<Geom> = written.iter().map(expected_after_read).collect();
     let n = expect.len();
     let cap = n + 4;
-    let (shp, shx) = match write_bytes_fins(&shapes, true, c.fin, c.mid_fins) {
+    let (shp, shx) = match write_bytes_hist(&shapes, true, c.fin, c.mid_fins, c.rejects) {
         Ok(x) => x,
         Err(e) => fail!("write-error", "{}", e),
     };
     let shx = shx.unwrap();
     // a writer without index destination must leave a .shp that reads back the same
     {
-        let (shp2, _) = match write_bytes_fins(&shapes, false, c.fin, c.mid_fins) {
+        let (shp2, _) = match write_bytes_hist(&shapes, false, c.fin, c.mid_fins, c.rejects) {
             Ok(x) => x,
             Err(e) => fail!("write-error", "without index destination: {}", e),
         };
@@ -257,7 +257,7 @@ where
                 Ok(w) => w,
                 Err(e) => fail!("write-error", "from_path: {}", err_str(&e)),
             };
-            if let Err(e) = drive_writer(w, &shapes, c.fin, c.mid_fins) {
+            if let Err(e) = drive_writer_ff(w, &shapes, c.fin, c.mid_fins, c.rejects & 1 != 0) {
                 fail!("write-error", "disk: {}", e);
             }
         }
